@@ -129,9 +129,9 @@ variable {c : Cfg} {ex : Option Nat} {fl : Nat} {T : Nat → Prop} {C : List Nat
 
 theorem chain_mkTh (c : Cfg) (a : Nat) : chain (mkTh c a) = [] := rfl
 
-theorem qc_mkTh (c : Cfg) (a : Nat) : QC (mkTh c a) := ⟨rfl, rfl, fun _ h => by cases h⟩
+theorem qc_mkTh (c : Cfg) (a : Nat) : QC (mkTh c a) := ⟨rfl, rfl, (fun _ h => by cases h), ⟨0, Nat.zero_le _, rfl⟩⟩
 
-theorem qc_default : QC (default : Th) := ⟨rfl, rfl, fun _ h => by cases h⟩
+theorem qc_default : QC (default : Th) := ⟨rfl, rfl, (fun _ h => by cases h), ⟨0, Nat.zero_le _, rfl⟩⟩
 
 /-- `get_local_thread_context`: the context of `a` exists afterwards, is `a`'s alone, and is empty if new -/
 theorem PI.ensureCtx (h : PI c ex fl T C s) (a : Nat) (x : Actor) (hx : s.actor a = some x) :
@@ -271,7 +271,7 @@ theorem PI.enq {a : Nat} (h : PI c (some a) fl T C s) (x : Actor) (hx : s.actor 
     (hfit : ∀ r ∈ chain (s.th ci), r.ts ≤ st.ts) (f : Th → Th)
     (hf : ∀ t, t = s.th ci → (f t).buf = t.buf ∧ (f t).qStmts = t.qStmts ++ [st] ∧ (f t).accepted = t.accepted ++ [st] ∧
       (f t).q.wpos = t.q.wpos + st.size ∧ (f t).q.wHist.headD 0 = t.q.wpos + st.size ∧ (f t).q.rpos = t.q.rpos ∧
-      (f t).valid = t.valid) :
+      (f t).valid = t.valid ∧ (f t).q.wcache = t.q.wcache) :
     PI c (some a) fl T C (s.setTh ci f) := by
   have hf := hf _ rfl
   have hchain : chain (f (s.th ci)) = chain (s.th ci) ++ [st] := by
@@ -310,13 +310,16 @@ theorem PI.enq {a : Nat} (h : PI c (some a) fl T C s) (x : Actor) (hx : s.actor 
       · rw [h1]; exact h.qc j
       · rw [h1]
         have q0 := h.qc j
-        obtain ⟨_, f2, _, f4, f5, f6, _⟩ := hf
-        refine ⟨by rw [f4, f5], ?_, ?_⟩
+        obtain ⟨_, f2, _, f4, f5, f6, _, f8⟩ := hf
+        refine ⟨by rw [f4, f5], ?_, ?_, ?_⟩
         · rw [f5, f6, f2, List.map_append, List.sum_append, q0.wpos, q0.sum]; simp; omega
         · rw [f2]; intro r hr
           rcases List.mem_append.mp hr with h2 | h2
           · exact q0.pos r h2
           · rw [List.mem_singleton.mp h2]; exact hsz
+        · obtain ⟨k, hk, hw⟩ := q0.wc
+          refine ⟨k, by rw [f2, List.length_append]; omega, ?_⟩
+          rw [f8, f6, f2, List.take_append_of_le_length hk]; exact hw
     reg := fun j => by
       rcases hcases j with h1 | ⟨rfl, h1⟩
       · rw [h1]; exact h.reg j
@@ -330,7 +333,7 @@ theorem PI.enq {a : Nat} (h : PI c (some a) fl T C s) (x : Actor) (hx : s.actor 
       refine ⟨r1, ?_⟩
       rcases hcases i with h1 | ⟨rfl, h1⟩
       · rw [h1]; exact r2
-      · rw [h1, hf.2.2.2.2.2.2]; exact r2
+      · rw [h1, hf.2.2.2.2.2.2.1]; exact r2
     ctxLt := fun b y i hy hi => by rw [length_setTh]; exact h.ctxLt b y i hy hi
     pend := fun b y r hy hb hpd => by
       obtain ⟨p1, p2, p3⟩ := h.pend b y r hy hb hpd
@@ -378,12 +381,13 @@ theorem PI.tryEnq {a : Nat} (h : PI c (some a) fl T C s) (x : Actor) (hx : s.act
     apply h.enq x hx ci hctx { st with enqAt := s.now } hts hsz rfl hfit
     intro t ht
     have f1 := qFinishCommit_fields s.cfg (qPrepareWrite s.cfg (s.th ci).q st.size).1 st.size
-    refine ⟨rfl, rfl, rfl, ?_, ?_, ?_, rfl⟩
+    refine ⟨rfl, rfl, rfl, ?_, ?_, ?_, rfl, ?_⟩
     · show (qFinishCommit _ _ _).wpos = _; rw [f1.1, f2.1, ht]
     · show (qFinishCommit _ _ _).wHist.headD 0 = _; rw [f1.2.1, f2.1, ht]; rfl
-    · show (qFinishCommit _ _ _).rpos = _; rw [f1.2.2, f2.2.2, ht]
+    · show (qFinishCommit _ _ _).rpos = _; rw [f1.2.2.1, f2.2.2.1, ht]
+    · show (qFinishCommit _ _ _).wcache = _; rw [f1.2.2.2, f2.2.2.2, ht]
   · have hf : ThEq (s.th ci) ((fun t : Th => { t with q := (qPrepareWrite s.cfg (s.th ci).q st.size).1 }) (s.th ci)) :=
-      ThEq.ofQ _ _ f2
+      ThEq.ofQ' _ _ f2
     exact ⟨h.setTh_frame ci _ hf, rfl, rfl, fun _ => rfl, fun _ i => chain_setTh_frame s ci _ hf i⟩
 
 theorem not_pend_none (st : Stmt) : ¬ isPendOf Pend.none st := by
@@ -464,11 +468,11 @@ theorem PI.enqFlow (h : PI c none fl T C s) (a : Nat) (x : Actor) (hx : s.actor 
     simp only [Bool.false_eq_true, if_false]
     split
     · split
-      · exact hnone _ (hQb _ _ hQ2 (fun t => ⟨rfl, rfl, rfl, rfl, rfl, rfl, rfl⟩))
-      · exact hretry _ (hQb _ _ hQ2 (fun t => ⟨rfl, rfl, rfl, rfl, rfl, rfl, rfl⟩))
+      · exact hnone _ (hQb _ _ hQ2 (fun t => ⟨rfl, rfl, rfl, rfl, rfl, rfl, rfl, .inl rfl⟩))
+      · exact hretry _ (hQb _ _ hQ2 (fun t => ⟨rfl, rfl, rfl, rfl, rfl, rfl, rfl, .inl rfl⟩))
     · apply hretry
       split
-      · exact hQb _ _ hQ2 (fun t => ⟨rfl, rfl, rfl, rfl, rfl, rfl, rfl⟩)
+      · exact hQb _ _ hQ2 (fun t => ⟨rfl, rfl, rfl, rfl, rfl, rfl, rfl, .inl rfl⟩)
       · exact hQ2
 
 theorem stmtSize_pos (c : Cfg) (hc : 0 < c.hdr) (k : Kind) (id len : Nat) (dyn : Bool) (gid : Nat) :
@@ -562,7 +566,7 @@ theorem PI.invalidate (h : PI c ex fl T C s) (i : Nat) (hno : ∀ b y, s.actor b
     qc := fun j => by
       rcases hcases j with h1 | ⟨rfl, h1⟩
       · rw [h1]; exact h.qc j
-      · rw [h1]; exact ⟨(h.qc j).wpos, (h.qc j).sum, (h.qc j).pos⟩
+      · rw [h1]; exact ⟨(h.qc j).wpos, (h.qc j).sum, (h.qc j).pos, (h.qc j).wc⟩
     reg := fun j => by rw [hch]; exact h.reg j
     bufCache := fun j => by rw [hbuf]; exact h.bufCache j
     ctxLt := fun b y j hy hj => by rw [length_setTh]; exact h.ctxLt b y j hy hj
